@@ -114,6 +114,23 @@ Theorem C15_unsynced_never_marked : forall ds ps,
   damaged ds ps = false.
 Proof. exact unsynced_never_marked. Qed.
 
+(* a stripe with a parity level that could not be read (any reader state but DONE, e.g. a parity file cut short), or
+   with a block of a file that could not be read, is never refreshed nor cleared: time, rehash and justsynced marks
+   stay, an existing bad mark stays, the only possible change is the bad mark being set (I/O error) *)
+Theorem C15_unreadable_never_refreshed : forall lim c ds ps info now info' c',
+  scrub_stripe lim c ds ps info now = Some (info', c') ->
+  existsb (fun t => negb (is_done (pt_state t))) ps = true \/
+  existsb (fun t => d_file t && negb (is_done (dt_state t))) ds = true ->
+  (info' = info \/ info' = info_set_bad info) /\
+  info_get_time info' = info_get_time info /\ info_get_rehash info' = info_get_rehash info /\
+  info_get_justsynced info' = info_get_justsynced info /\ (info_get_bad info = true -> info_get_bad info' = true).
+Proof. exact unreadable_never_refreshed. Qed.
+
+Theorem C15_unverified_never_refreshed : forall lim c ds ps info now info' c',
+  scrub_stripe lim c ds ps info now = Some (info', c') -> verified ds ps = false ->
+  info' = info \/ info' = info_set_bad info.
+Proof. exact unverified_never_refreshed. Qed.
+
 (* the refreshed word: time = now rounded down to 8 s, no mark; the bad mark keeps everything else *)
 Theorem C15_refreshed_word : forall now, (0 <= now < 4294967296)%Z ->
   let w := info_make now false false false in
@@ -201,9 +218,20 @@ Example C15_nonvacuous_deleted :
   scrub_stripe 100 c0 [clean; gone] [stale; stale] 164 1000 = Some (164%N, {| c_error := 2; c_silent := 0; c_io := 0 |}%N).
 Proof. cbv zeta. repeat split; vm_compute; reflexivity. Qed.
 
+(* a 2-parity file cut short: the level reads with a (non-I/O) error, the other level compares equal -- file error, word kept *)
+Example C15_nonvacuous_unreadable_parity :
+  let clean := {| dt_disk := true; dt_block := BLOCK_BLK; dt_ts_diff := false; dt_state := TASK_DONE; dt_hash_eq := true |} in
+  let ok := {| pt_state := TASK_DONE; pt_equal := true |} in
+  let short := {| pt_state := TASK_ERROR_CONTINUE; pt_equal := true |} in
+  let c0 := {| c_error := 0; c_silent := 0; c_io := 0 |}%N in
+  scrub_stripe 100 c0 [clean; clean] [ok; short] 165 1000 = Some (165%N, {| c_error := 1; c_silent := 0; c_io := 0 |}%N) /\
+  existsb (fun t => negb (is_done (pt_state t))) [ok; short] = true.
+Proof. cbv zeta. split; vm_compute; reflexivity. Qed.
+
 Print Assumptions C15_bad_always.
 Print Assumptions C15_default_scrub_covers.
 Print Assumptions C15_auto_exact.
+Print Assumptions C15_unreadable_never_refreshed.
 Print Assumptions C15_plan_number_range_refuted.
 Print Assumptions C15_plan_number_range_partial.
 Print Assumptions C15_full_all_used.
